@@ -7,6 +7,8 @@
 (*   7 function compiled by exec INSIDE the module's own namespace (as     *)
 (*     dataclasses / namedtuple do): no source either, although the        *)
 (*     module it lives in has a file                                       *)
+(*   8 recursion six deep on one line (the interpreter prints such a frame *)
+(*     three times and then counts the rest)                               *)
 (* and the kind of exception raised at the bottom.  Frames(p): the frames  *)
 (* the traceback must list - <<function name class, has source>> - in      *)
 (* order, after the driver's own frame.                                    *)
@@ -15,6 +17,8 @@ EXTENDS Naturals, Integers, Sequences
 RECURSIVE Frames(_)
 Frames(p) == IF p = <<>> THEN <<>>
              ELSE LET k == Head(p) IN
-                  (IF k = 6 THEN << <<6, TRUE>>, <<6, TRUE>> >> ELSE << <<k, k \notin {5, 7}>> >>) \o Frames(Tail(p))
+                  (IF k = 6 THEN << <<6, TRUE>>, <<6, TRUE>> >>
+                   ELSE IF k = 8 THEN [i \in 1..7 |-> <<8, TRUE>>]
+                   ELSE << <<k, k \notin {5, 7}>> >>) \o Frames(Tail(p))
 NFrames(p) == Len(Frames(p))
 =============================================================================
